@@ -40,20 +40,23 @@ Definition cache_both (now : Z) (sb : B) (sl : L) (tbl : list chandle) (name : s
   match e with
   | Some er => cret sb1 sl1 tbl (RErr er)
   | None =>
-    let base_part : B * L * option err :=
+    (* Some r = the call returns r here (an error, or a panic of the base, which propagates) *)
+    let stop (r : res) : option res :=
+      match r with RPanic => Some RPanic | _ => match res_err r with Some er => Some (RErr er) | None => None end end in
+    let base_part : B * L * option res :=
       match st with
       | CLocal => (sb1, sl1, None)
-      | CHit => let '(sb2, r) := bstep sb1 o in (sb2, sl1, res_err r)
+      | CHit => let '(sb2, r) := bstep sb1 o in (sb2, sl1, stop r)
       | CStale | CMiss =>
         if copy_first then
           match copy_to_layer bstep lstep sb1 sl1 name with
-          | (sb2, sl2, Some ce) => (sb2, sl2, Some ce)
-          | (sb2, sl2, None) => let '(sb3, r) := bstep sb2 o in (sb3, sl2, res_err r)
+          | (sb2, sl2, Some ce) => (sb2, sl2, Some (RErr ce))
+          | (sb2, sl2, None) => let '(sb3, r) := bstep sb2 o in (sb3, sl2, stop r)
           end
-        else let '(sb2, r) := bstep sb1 o in (sb2, sl1, res_err r)
+        else let '(sb2, r) := bstep sb1 o in (sb2, sl1, stop r)
       end in
     match base_part with
-    | (sb2, sl2, Some er) => cret sb2 sl2 tbl (RErr er)
+    | (sb2, sl2, Some r) => cret sb2 sl2 tbl r
     | (sb2, sl2, None) => let '(sl3, r) := lstep sl2 o in cret sb2 sl3 tbl r
     end
   end.
